@@ -95,3 +95,37 @@ Fixpoint conn_exchanges (pol : policy) (buf : bytes) (reqs : list (bytes * bytes
       | None => [None]
       end
   end.
+
+(* ---------- Expect: 100-continue (persistConn.readResponse's continueCh) ----------
+
+   For a request sent with Expect: 100-continue the read side holds [continueCh], a channel of
+   CAPACITY ONE to the request-body writer.  State carried through the loop over response
+   heads: is the channel still armed.  A "100 Continue" head seen while armed signals the
+   writer (send the body) and DISARMS (continueCh = nil); every further 100 head is an
+   ordinary informational head.  After the loop, if still armed (terminal status without any
+   100): send the body if the connection will be kept, close the channel (do not send)
+   otherwise.  [disarm] = false is the seeded variant that forgets `continueCh = nil`. *)
+
+Inductive cont_signal := SigSendBody | SigDontSend.
+
+Fixpoint read_final_expect (disarm : bool) (fuel : nat) (meth : bytes) (n : nat) (armed : bool)
+                           (s : bytes) : final_head * list cont_signal :=
+  match fuel with
+  | O => (FhErr HOutOfFuel, [])
+  | S f =>
+      match read_response_head meth conn_bufsize s with
+      | inl e => (FhErr e, [])
+      | inr (r, rest) =>
+          let hit := armed && (r_code r =? 100)%Z in
+          let sigs := if hit then [SigSendBody] else [] in
+          let armed' := if disarm then armed && negb hit else armed in
+          if is_1xx_nonterminal (r_code r) then
+            if max_1xx_responses <? S n then (FhTooMany1xx, sigs)
+            else let '(fh, more) := read_final_expect disarm f meth (S n) armed' rest in
+                 (fh, sigs ++ more)
+          else (FhOk r rest,
+                sigs ++ (if armed' then [if r_close r then SigDontSend else SigSendBody] else []))
+      end
+  end.
+
+Definition is_send (c : cont_signal) : bool := match c with SigSendBody => true | _ => false end.
